@@ -13,7 +13,7 @@
       PingResp t     a PINGRESP is processed at t
       Other t        any other traffic, either direction (publishes, acks, subscribes ...)
       Parked t / Resolved t   a publish is parked on a packet id collision / the collision resolves
-      Fail t         the connection ends for any other reason; the next Connect starts a new one
+      ConnFail t     the connection ends for any other reason; the next Connect starts a new one
     No proofs here. *)
 From Rumqtt Require Export Base.Outcome.
 
@@ -25,10 +25,10 @@ Record kstate := mkK {
 
 Inductive kev :=
 | Connect (t : N) | Tick (t : N) | PingResp (t : N) | Other (t : N) | Parked (t : N) | Resolved (t : N)
-| Fail (t : N).   (* any other Err out of select() (transport closed, unsolicited ack, ...): EventLoop::clean() *)
+| ConnFail (t : N).   (* any other Err out of select() (transport closed, unsolicited ack, ...): EventLoop::clean() *)
 
 Definition time_of (e : kev) : N :=
-  match e with Connect t | Tick t | PingResp t | Other t | Parked t | Resolved t | Fail t => t end.
+  match e with Connect t | Tick t | PingResp t | Other t | Parked t | Resolved t | ConnFail t => t end.
 
 Inductive kout :=
 | PingReqAt (t : N)          (* PINGREQ handed to the network at t *)
@@ -71,7 +71,7 @@ Definition kstep_gen (zero_guard : bool) (ka : N) (s : kstate) (e : kev) : kstat
   | Other _ => (s, [])
   | Parked _ => (mkK (deadline s) (await s) true (cpc s), [])
   | Resolved _ => (mkK (deadline s) (await s) false 0, [])
-  | Fail _ => (kclean s, [])
+  | ConnFail _ => (kclean s, [])
   end.
 
 Definition kstep := kstep_gen true.
